@@ -69,6 +69,15 @@ M = [
      "            MPSwriteRecord(p_output, \"UP\", \"BOUND\", getColName(*this, i, p_cnames, name1), upper(i));", "            MPSwriteRecord(p_output, \"XX\", \"BOUND\", getColName(*this, i, p_cnames, name1), upper(i));"),
     ('C16', 'interrupt-not-forwarded', 'R16.5', 'src/soplex/solvereal.hpp', "      _preprocessAndSolveReal(true, interrupt);", "      _preprocessAndSolveReal(true);"),
     ('C17', 'flag-not-copied', 'R17.1', 'src/soplex.hpp', "      _hasBasis = rhs._hasBasis;\n", ""),
+    # generic shape rules (rules/shapes.py)
+    ('C06', 'changeUpper-scales-as-lower', 'R06.S7', 'src/soplex/spxlpbase.h',
+     "         LPColSetBase<R>::upper_w(i) = lp_scaler->scaleUpper(*this, i, newUpper);", "         LPColSetBase<R>::upper_w(i) = lp_scaler->scaleLower(*this, i, newUpper);"),
+    ('C06', 'changeUpper-tests-minus-infinity', 'R06.S7', 'src/soplex/spxlpbase.h',
+     "      if(scale && newUpper < R(infinity))", "      if(scale && newUpper < R(-infinity))"),
+    ('C19', 'permutation-entry-tested-positive', 'R19.S2', 'src/soplex/lprowsetbase.h',
+     "      SVSetBase<R>::remove(perm);\n\n      for(int i = 0; i < j; ++i)\n      {\n         if(perm[i] >= 0 && perm[i] != i)", "      SVSetBase<R>::remove(perm);\n\n      for(int i = 0; i < j; ++i)\n      {\n         if(perm[i] > 0 && perm[i] != i)"),
+    ('C06', 'lower-compared-with-plus-infinity', 'R06.S1', 'src/soplex/changesoplex.hpp',
+     "      if(newLower <= R(-infinity))", "      if(newLower <= R(infinity))"),
     ('C17', 'basis-backpointer-not-rebound', 'R17.6', 'src/soplex/spxsolver.hpp', "         SPxBasisBase<R>::theLP = this;\n\n         assert(!freePricer", "         assert(!freePricer"),
     ('C17', 'guard-reads-destination', 'R17.5', 'src/soplex/slufactor.hpp', "   if(!old.l.rval.empty())", "   if(!this->l.rval.empty())"),
     ('C18', 'mutable-global-counter', 'R18.1', 'src/soplex/spxout.cpp',
